@@ -32,6 +32,10 @@ type Flow struct {
 	// on phi operands (used for comma-ok / short-circuit values).
 	in  map[*ssa.BasicBlock]bool
 	out map[*ssa.BasicBlock]bool
+
+	deep   int
+	deepOK func(*ssa.Function) bool
+	ds     *deepState
 }
 
 // Solve runs the analysis to its greatest fix-point.
@@ -148,8 +152,20 @@ func (f *Flow) transfer(b *ssa.BasicBlock, in bool, until ssa.Instruction) bool 
 		if c, ok := ins.(*ssa.Call); ok && f.P != nil && f.P.IsNoReturn(&c.Call) {
 			return true // path dies here
 		}
+		in := v
 		if f.Instr != nil {
 			v = f.Instr(ins, v)
+		}
+		if g := f.deepCallee(ins); g != nil {
+			if f.ds == nil {
+				f.ds = &deepState{memo: map[deepKey]bool{}, stack: map[*ssa.Function]bool{}}
+			}
+			// the call itself is a generator for the rule: keep it. Otherwise the
+			// callee's body (processed with the same callbacks) decides, which is
+			// more precise than a transitive may-store kill.
+			if !(v && !in) {
+				v = f.summary(g, in, f.deep, f.ds)
+			}
 		}
 	}
 	return v
@@ -386,4 +402,148 @@ func DumpAtoms(fn *ssa.Function) []string {
 		}
 	}
 	return out
+}
+
+// ---- interprocedural support --------------------------------------------
+//
+// Rules must not depend on where a maintainer draws function boundaries.
+// Two mechanisms make a Flow robust against "extract helper" refactorings:
+//
+//  * Deep (callee summaries, downwards): a call to a module function with a
+//    body is transferred by running the same fact on the callee with the
+//    caller's current value as entry value; the result is the conjunction
+//    over the callee's returns. Only sound for function-agnostic callbacks
+//    (facts keyed on fields / callees, not on SSA values of one function).
+//  * Spec.Holds (caller context, upwards): a fact holds before an instruction
+//    of a helper if it holds there assuming it at entry, and it holds before
+//    every call site of the helper (recursively, bounded).
+
+// deepState carries memoised callee summaries for one Solve.
+type deepState struct {
+	memo  map[deepKey]bool
+	stack map[*ssa.Function]bool
+}
+
+type deepKey struct {
+	fn *ssa.Function
+	in bool
+}
+
+// WithDeep enables callee summaries to the given depth for module callees
+// accepted by ok (nil = every module function with a body).
+func (f *Flow) WithDeep(depth int, ok func(*ssa.Function) bool) *Flow {
+	f.deep = depth
+	f.deepOK = ok
+	return f
+}
+
+func (f *Flow) summary(g *ssa.Function, in bool, depth int, st *deepState) bool {
+	k := deepKey{g, in}
+	if v, ok := st.memo[k]; ok {
+		return v
+	}
+	if st.stack[g] || depth <= 0 {
+		return false
+	}
+	st.stack[g] = true
+	sub := &Flow{P: f.P, Fn: g, Entry: in, Edge: f.Edge, EdgeKill: f.EdgeKill, Instr: f.Instr, deep: depth - 1, deepOK: f.deepOK, ds: st}
+	sub.Solve()
+	res := true
+	rets := 0
+	for _, b := range g.Blocks {
+		if len(b.Instrs) == 0 {
+			continue
+		}
+		if r, ok := b.Instrs[len(b.Instrs)-1].(*ssa.Return); ok {
+			rets++
+			if !sub.Before(r) {
+				res = false
+			}
+		}
+	}
+	delete(st.stack, g)
+	st.memo[k] = res
+	return res
+}
+
+// deepCallee returns the callee to summarise for a call instruction, or nil.
+func (f *Flow) deepCallee(ins ssa.Instruction) *ssa.Function {
+	if f.deep <= 0 {
+		return nil
+	}
+	call, ok := ins.(*ssa.Call)
+	if !ok {
+		return nil
+	}
+	g := call.Call.StaticCallee()
+	if g == nil {
+		// immediately invoked closure
+		if mc, ok := call.Call.Value.(*ssa.MakeClosure); ok {
+			g, _ = mc.Fn.(*ssa.Function)
+		}
+	}
+	if g == nil || g.Blocks == nil || g == f.Fn || !InModule(FnPkgPath(g)) {
+		return nil
+	}
+	if f.deepOK != nil && !f.deepOK(g) {
+		return nil
+	}
+	return g
+}
+
+// Spec is a function-agnostic fact definition that can be evaluated in any
+// function and across call boundaries.
+type Spec struct {
+	P        *Prog
+	Edge     func(a Atom) bool
+	EdgeKill func(a Atom) bool
+	Instr    func(ins ssa.Instruction, in bool) bool
+	Deep     int // callee summary depth (0 = none)
+	flows    map[deepKey]*Flow
+}
+
+// On returns the solved flow of the spec on fn with the given entry value.
+func (s *Spec) On(fn *ssa.Function, entry bool) *Flow {
+	if s.flows == nil {
+		s.flows = map[deepKey]*Flow{}
+	}
+	k := deepKey{fn, entry}
+	if fl, ok := s.flows[k]; ok {
+		return fl
+	}
+	fl := (&Flow{P: s.P, Fn: fn, Entry: entry, Edge: s.Edge, EdgeKill: s.EdgeKill, Instr: s.Instr}).WithDeep(s.Deep, nil).Solve()
+	s.flows[k] = fl
+	return fl
+}
+
+// Holds reports whether the fact holds on every path reaching ins, looking
+// up to `up` levels into the callers of the enclosing function when the
+// fact is not established inside it.
+func (s *Spec) Holds(ins ssa.Instruction, up int) bool {
+	return s.holds(ins, up, map[*ssa.Function]bool{})
+}
+
+func (s *Spec) holds(ins ssa.Instruction, up int, busy map[*ssa.Function]bool) bool {
+	fn := ins.Parent()
+	if s.On(fn, false).Before(ins) {
+		return true
+	}
+	if up <= 0 || busy[fn] || !s.On(fn, true).Before(ins) {
+		return false
+	}
+	sites := s.P.StaticCallSites(fn)
+	if len(sites) == 0 {
+		return false
+	}
+	busy[fn] = true
+	defer delete(busy, fn)
+	for _, site := range sites {
+		if site == nil {
+			return false // referenced as a value / spawned: unknown context
+		}
+		if !s.holds(site, up-1, busy) {
+			return false
+		}
+	}
+	return true
 }
